@@ -109,7 +109,7 @@ func (c *Ctx) closurePurity(r *shape.Result, fi *load.FuncInfo) {
 				case *ast.SelectStmt:
 					bad, badPos = "select", x.Pos()
 				case *ast.Ident:
-					if v, ok := cl.Frame.Info.Uses[x].(*types.Var); ok && v.Pkg() != nil && v.Parent() == v.Pkg().Scope() {
+					if v, ok := cl.Frame.Info.Uses[x].(*types.Var); ok && v.Pkg() != nil && v.Parent() == v.Pkg().Scope() && !readOnlyTable(v) {
 						bad, badPos = "package-level variable "+v.Name(), x.Pos()
 					}
 				}
